@@ -43,13 +43,14 @@
 EXTENDS Integers, Sequences, FiniteSets, TLC
 
 CONSTANTS Dev,       \* enabled recorded deviations, subset of DevNames
-          Family,    \* "A": every operation x {valid basic, none};  "B": representative operations x every credential case
+          Family,    \* "A": every operation x {valid basic, none};  "B": representative operations x every credential case;
+                     \* "W": small witness family
           PairMode   \* "none" | "partner" | "full": which multi-statement requests are included
 
 Db == {"d1", "d2"}
 Privs == {"none", "read", "write", "all"}
 PrivSeq == <<"none", "read", "write", "all">>
-DevNames == {"cardNoPriv", "cardFromDefault", "fromDbDefault", "wildcardDefault", "cqWeak", "firstAdminMulti"}
+DevNames == {"firstAdminMulti"}
 
 \* canonical user order (the harness uses the same indexing): i-1 = admin*16 + priv(d1)*4 + priv(d2)
 NUsers == 32
@@ -89,16 +90,18 @@ Stmts ==
   \cup {St(c, "default", "-", "-", {R(DFL)}) : c \in DefaultReadClasses \cup ReadOnClasses}
   \cup {St(c, "on", a, "-", {R(a)}) : c \in ReadOnClasses, a \in Db}
   \cup {St("ShowMeasurements", "on_rp", a, "-", {R(a)}) : a \in Db}
-  \* SHOW MEASUREMENTS ON *.* lists the measurements of every database
-  \cup {StDev("ShowMeasurements", "wild", "-", "-", {R(d) : d \in Db}, {R(DFL)}, "wildcardDefault")}
+  \* SHOW MEASUREMENTS ON *.* is admitted with READ on the default database; which databases it may
+  \* list is the subject of C16_ListingOnlyGranted below (result filtering, like SHOW DATABASES)
+  \cup {St("ShowMeasurements", "wild", "-", "-", {R(DFL)})}
   \* a database-qualified measurement in FROM is what the rewritten statement reads
-  \cup {StDev(c, "from", a, "-", {R(a)}, {R(DFL)}, "fromDbDefault") : c \in {"ShowFieldKeys", "ShowSeries"}, a \in Db}
-  \cup {StDev(c, "default", "-", "-", {R(DFL)}, {}, "cardNoPriv") : c \in CardFromClasses}
-  \cup {StDev(c, f, a, "-", {R(a)}, {}, "cardNoPriv") : c \in CardFromClasses, f \in {"on", "exact_on"}, a \in Db}
-  \cup {StDev(c, "on_from", a, "-", {R(a)}, {R(DFL)}, "cardFromDefault") : c \in CardFromClasses, a \in Db}
-  \cup {StDev(c, "exact_default", "-", "-", {R(DFL)}, {}, "cardNoPriv") : c \in CardExactClasses}
-  \cup {StDev(c, "exact_on", a, "-", {R(a)}, {}, "cardNoPriv") : c \in CardExactClasses, a \in Db}
-  \cup {StDev(c, "exact_on_from", a, "-", {R(a)}, {R(DFL)}, "cardFromDefault") : c \in CardExactClasses, a \in Db}
+  \* (query/statement_rewriter.go rewriteSources); found not enforced (F23), repaired by patch 04
+  \cup {St(c, "from", a, "-", {R(a)}) : c \in {"ShowFieldKeys", "ShowSeries"}, a \in Db}
+  \* cardinality statements read the ON / default database also when they have no FROM clause;
+  \* found not enforced (F21: no privilege at all; F22: default instead of ON database), repaired by patch 04
+  \cup {St(c, "default", "-", "-", {R(DFL)}) : c \in CardFromClasses}
+  \cup {St(c, f, a, "-", {R(a)}) : c \in CardFromClasses, f \in {"on", "exact_on", "on_from"}, a \in Db}
+  \cup {St(c, "exact_default", "-", "-", {R(DFL)}) : c \in CardExactClasses}
+  \cup {St(c, f, a, "-", {R(a)}) : c \in CardExactClasses, f \in {"exact_on", "exact_on_from"}, a \in Db}
   \cup {St(c, "default", "-", "-", {R(DFL)}) : c \in {"Select", "Explain"}}
   \cup {St(c, f, a, "-", {R(a)}) : c \in {"Select"}, f \in {"from", "subq"}, a \in Db}
   \cup {St("Explain", f, a, "-", {R(a)}) : f \in {"from", "analyze_from"}, a \in Db}
@@ -111,10 +114,12 @@ Stmts ==
   \cup {St(c, "on", a, "-", {W(a)}) : c \in {"DropContinuousQuery", "DropRetentionPolicy"}, a \in Db}
   \* DROP MEASUREMENT removes data of the default database; the implementation demands admin (stricter)
   \cup {StStrict("DropMeasurement", "default", "-", "-", {W(DFL)}, {ADMIN})}
-  \* a continuous query reads its sources and writes its target for ever, without a user
-  \cup {StDev("CreateContinuousQuery", "on", a, "-", {R(a), W(a)}, {R(a)}, "cqWeak") : a \in Db}
+  \* a continuous query reads its sources and writes its target for ever, without a user; found not
+  \* enforced (F25: READ on the ON database sufficed), repaired by patch 04.  The implementation also
+  \* demands READ on the ON database when the query reads another one (stricter).
+  \cup {St("CreateContinuousQuery", "on", a, "-", {R(a), W(a)}) : a \in Db}
   \cup {St("CreateContinuousQuery", "on_into", a, b, {R(a), W(b)}) : a \in Db, b \in Db}
-  \cup {StDev("CreateContinuousQuery", "on_from", a, b, {R(b), W(a)}, {R(a)}, "cqWeak") : a \in Db, b \in Db}
+  \cup {StStrict("CreateContinuousQuery", "on_from", a, b, {R(b), W(a)}, {R(a), R(b), W(a)}) : a \in Db, b \in Db}
 
 Classes == {s.cls : s \in Stmts}
 CodeReq(s) == IF s.dev # "" /\ s.dev \in Dev THEN s.weak ELSE s.code
@@ -130,10 +135,14 @@ SingleOps == {Q(<<s>>) : s \in Stmts}
 PartnerOps == {Q(<<s, Benign>>) : s \in Stmts} \cup {Q(<<Benign, s>>) : s \in Stmts}
 FullPairOps == {Q(<<s, t>>) : s \in RepStmts, t \in RepStmts}
 WriteOps == {[kind |-> "write", stmts |-> <<>>, db |-> d] : d \in Db}
-RepOps == {Q(<<s>>) : s \in RepStmts} \cup {Q(<<s, Benign>>) : s \in RepStmts} \cup {Q(<<Benign, s>>) : s \in RepStmts}
-          \cup WriteOps
+RepOps == {Q(<<s>>) : s \in RepStmts} \cup WriteOps
+          \cup (IF PairMode # "none" THEN {Q(<<s, Benign>>) : s \in RepStmts} \cup {Q(<<Benign, s>>) : s \in RepStmts} ELSE {})
 
+\* "W": a small family for the non-vacuity witnesses: the statements with a recorded deviation, and the writes
+WitnessOps == {Q(<<s>>) : s \in {s \in Stmts : s.cls \in {"CreateUser", "ShowDatabases", "DropDatabase"}}}
+              \cup {Q(<<s, Benign>>) : s \in {s \in Stmts : s.cls = "CreateUser"}} \cup WriteOps
 Ops == IF Family = "B" THEN RepOps
+       ELSE IF Family = "W" THEN WitnessOps
        ELSE SingleOps \cup WriteOps
             \cup (IF PairMode \in {"partner", "full"} THEN PartnerOps ELSE {})
             \cup (IF PairMode = "full" THEN FullPairOps ELSE {})
@@ -250,6 +259,18 @@ C16_FirstAdminOnly ==
 C16_RejectedNeverRuns == (principal \in {"reject"} \/ status \in {401, 403}) => executed = {}
 \* the one-shot function used by the generator agrees with the step-wise model
 OutcomeAgrees == pc = "done" => [st |-> status, ex |-> Cardinality(executed)] = Outcome(case)
+\* ---- statements that list across databases ("SHOW DATABASES special"): the request itself needs little,
+\* the RESULT only mentions databases the user holds a grant on.  Documentation: "non-admin users can
+\* SHOW the databases on which they have READ and/or WRITE permissions".  Measurement names are data:
+\* READ is needed.
+VisibleDbs(u) == {d \in Db : u.admin \/ u.priv[d] # "none"}
+ReadableDbs(u) == {d \in Db : u.admin \/ Has(u, "read", d)}
+\* implementation: coordinator/statement_executor.go filters with the coarse authorizer
+ListedDbs(u, what) == IF what = "measurements" THEN ReadableDbs(u) ELSE VisibleDbs(u)
+MayList(u, what) == IF what = "measurements" THEN ReadableDbs(u) ELSE VisibleDbs(u)
+C16_ListingOnlyGranted ==
+  \A i \in 1..NUsers : \A what \in {"databases", "cqs", "measurements"} : ListedDbs(U(i), what) \subseteq MayList(U(i), what)
+
 \* non-vacuity witnesses (checked as "must be violated" by the orchestrator)
 NeverRuns == executed = {}
 NeverTainted == ~(executed # {} /\ ~Allowed(case))
